@@ -4,7 +4,8 @@
 tasks and futures are the stock implementation.  Only three things differ:
 
 * `time()` is a virtual clock.  The selector never blocks: `select(timeout)` with nothing
-  ready advances the virtual clock by `timeout` and returns [].  (`select(None)` = the loop
+  ready advances the virtual clock by `timeout` and returns []; every loop iteration
+  additionally costs 1 virtual microsecond (a real clock never stands still).  (`select(None)` = the loop
   has neither ready handles nor timers = nothing can ever happen again: `LoopStalled`.)
 * `getaddrinfo` / `create_datagram_endpoint` hand out `VDatagramTransport`s wired to a `VNet`
   (same call protocol as the selector transport: `connection_made` through call_soon, then
@@ -52,6 +53,9 @@ class _VSelector(selectors._BaseSelectorImpl):
             raise Watchdog("iteration cap")
         if timeout is None:
             raise LoopStalled("no ready handles and no timers at t=%.6f" % lp._vtime)
+        # a real clock never stands still: every loop iteration costs a little time.  (Without this a
+        # timer that re-arms itself for the very instant it fired at would spin forever on a frozen clock.)
+        lp._vtime += lp.tick
         if timeout > 0:
             t = lp._vtime + timeout
             if lp._scheduled:
@@ -67,6 +71,7 @@ class VLoop(asyncio.SelectorEventLoop):
     def __init__(self, seed=0, max_lateness=0.0, wall_limit=60.0, iteration_cap=3_000_000):
         self._vtime = 0.0
         self.iterations = 0
+        self.tick = 1e-6  # virtual seconds consumed by one loop iteration
         self.clock_jumps = 0
         self.iteration_cap = iteration_cap
         self.wall_deadline = _walltime.monotonic() + wall_limit
